@@ -23,7 +23,7 @@ EVIDENCE_DIR = os.environ.get("SV_EVIDENCE_DIR") or os.path.join(VERIF, "evidenc
 REPLAY_DIR = os.path.join(EVIDENCE_DIR, "replays")
 KNOWN = os.path.join(VERIF, "known_findings.json")
 
-CLAIMED = ["C01", "C02", "C03", "C04", "C05", "C06", "C07", "C08", "C09", "C10", "C11", "C13", "C14", "C15", "C16", "C17"]
+CLAIMED = ["C01", "C02", "C03", "C04", "C05", "C06", "C07", "C08", "C09", "C10", "C11", "C12", "C13", "C14", "C15", "C16", "C17"]
 
 
 class Context:
